@@ -156,7 +156,35 @@ fn args_record(toks: &[Vec<u8>]) -> Value {
     let list = ArgList::new(tokens);
     let items: Vec<Value> = list.args().map(|a| arg_json(&a)).collect();
     let toks_json: Vec<Value> = toks.iter().map(|t| json!(t)).collect();
-    json!({"m": "args", "toks": toks_json, "items": items})
+    // the same items through the other ways an iterator is consumed: nth(k) on a fresh iterator, skip(k)
+    let none = json!({"k": "none", "t": []});
+    let nth: Vec<Value> = (0..=items.len())
+        .map(|k| list.args().nth(k).map(|a| arg_json(&a)).unwrap_or_else(|| none.clone()))
+        .collect();
+    let skip_then_next: Vec<Value> = (0..=items.len())
+        .map(|k| list.args().skip(k).next().map(|a| arg_json(&a)).unwrap_or_else(|| none.clone()))
+        .collect();
+    // nth in the middle of an iteration: one next(), then nth(k)
+    let next_then_nth: Vec<Value> = (0..items.len())
+        .map(|k| {
+            let mut it = list.args();
+            it.next();
+            it.nth(k).map(|a| arg_json(&a)).unwrap_or_else(|| none.clone())
+        })
+        .collect();
+    // hand-over of the remaining tokens (ArgsIter::into_args, used for sub-commands and `help <command>`)
+    let split: Vec<Value> = (0..=items.len())
+        .map(|k| {
+            let mut it = list.args();
+            for _ in 0..k {
+                it.next();
+            }
+            let rest = it.into_args();
+            Value::Array(rest.args().map(|a| arg_json(&a)).collect())
+        })
+        .collect();
+    json!({"m": "args", "toks": toks_json, "items": items, "nth": nth, "skip": skip_then_next,
+           "next_nth": next_then_nth, "split": split})
 }
 
 fn enc(cp: u32) -> Vec<u8> {
